@@ -111,6 +111,16 @@ def payload_from_obs(f):
     return rlp_list(body)
 
 
+def pairs_list_of(f):
+    """the reported raw pairs in the order the implementation iterates them"""
+    out = []
+    if f.get("pairs", "-") != "-":
+        for kv in f["pairs"].split(","):
+            k, v = kv.split(":")
+            out.append((unhx(k), unhx(v)))
+    return out
+
+
 def pairs_of(f):
     out = {}
     if f.get("pairs", "-") != "-":
@@ -282,6 +292,15 @@ def check_C01(ctx):
                 if oracle_verifies(ctx, kt, f) is not True:
                     out.append((i, "accepted, but the library asked directly rejects the signature for the key/content the record reports"))
                 ctx.hyp_checked["accepted record re-verified by the library directly"] += 1
+                # the signature covers exactly what the INPUT carries: the consumed input is the encoding of the reported
+                # signature, sequence number and pairs (otherwise an altered copy of a signed record was accepted)
+                t = case[i].split()
+                if t[0] == "decode" and "rest" in f:
+                    inp = unhx(t[1])
+                    consumed = inp[:len(inp) - int(f["rest"])]
+                    body = rlp_uint(int(f["seq"])) + b"".join(rlp_str(k) + v for k, v in pairs_list_of(f))
+                    if consumed != rlp_list(rlp_str(unhx(f["sig"])) + body):
+                        out.append((i, "accepted an input that is not the encoding of the signature, sequence number and pairs the record reports: what was verified is not what the input carries"))
         return out
 
     for kt in ["k256", "libsecp", "ed", "comb", "toy"]:
@@ -547,6 +566,10 @@ def mon_C10(ctx):
                     r = ctx.oracle.q("secp_pk %s %s" % ("l" if kt != "libsecp" else "k", hx(v[2:]))).split()
                     if r[0] == "ok" and r[2] != f["pku"]:
                         out.append((i, "encode_uncompressed() differs from an independent derivation from the stored key"))
+                # an entry stored in the uncompressed SEC1 form 04 || x || y: the id is the hash of exactly that x || y
+                if v is not None and base_kt(kt) in ("k256", "libsecp", "comb") and len(v) == 67 and v[:3] == b"\xb8\x41\x04" and f.get("pk", "")[2:] == hx(v[3:35]):
+                    if f["nid"] != hx(ctx.oracle.keccak(v[3:])):
+                        out.append((i, "node id != keccak256 of the 64-byte x||y stored in the record's secp256k1 entry"))
                 ved = pairs.get(b"ed25519")
                 if ved is not None and len(ved) == 33 and (kt == "ed" or (kt == "comb" and f.get("pk") == hx(ved[1:]))):
                     if f["nid"] != hx(ctx.oracle.keccak(ved[1:])):
@@ -876,8 +899,15 @@ def check_history_property(ctx):
             recs_d, inputs_d, labels_d = decode_inputs(ctx, gk, ctx.scale(4, 40), 0, ctx.scale(3, 30), ctx.scale(5, 100), 0)
             cases += [["decode " + hx(b)] for b in inputs_d]
         if pid == "C10":
-            for r in gens.valid_records(ctx.rng, ctx.oracle, gk, ctx.scale(6, 60)):
+            vr = gens.valid_records(ctx.rng, ctx.oracle, gk, ctx.scale(6, 60))
+            for r in vr:
                 cases.append(["decode " + hx(r["bytes"])])
+            # every other encoding of the public key (uncompressed, hybrid, raw x||y, off-curve with the right parity, ...),
+            # signed over exactly that content: if accepted, the node id must be the hash of the key the record stores
+            for r in vr[:ctx.scale(3, 30)]:
+                for lab, b in gens.structural_mutants(ctx.rng, ctx.oracle, r):
+                    if "pubkey" in lab:
+                        cases.append(["decode " + hx(b)])
             if gk in ("ed", "comb"):
                 for b in gens.weak_ed_records(ctx.rng):
                     cases.append(["decode " + hx(b)])
